@@ -150,6 +150,9 @@ USERS = {
     "sha1": rusm.User(b"shauser", "sha1", b"sha-auth-password"),
     "md5priv": rusm.User(b"md5privuser", "md5", b"md5-auth-password", b"the-priv-password"),
     "sha1priv": rusm.User(b"shaprivuser", "sha1", b"sha-auth-password-2", b"other-priv-password"),
+    # two users sharing one privacy password (and engine) but not the authentication hash
+    "md5privS": rusm.User(b"md5sharedpriv", "md5", b"md5-auth-password-3", b"shared-priv-password"),
+    "sha1privS": rusm.User(b"shasharedpriv", "sha1", b"sha-auth-password-3", b"shared-priv-password"),
 }
 PRIV_METHOD = "verifstream"
 
